@@ -281,7 +281,7 @@ func (x *Exec) bindResults(env *Env, results *types.Tuple, res Val) {
 		n := x.tc.nleaves(rt)
 		var v Val
 		if results.Len() == 1 {
-			v = res
+			v = Val{T: rt, L: res.L, A: res.A, Fn: res.Fn, Bindings: res.Bindings}
 		} else {
 			v = Val{T: rt, L: res.L[off : off+n]}
 		}
@@ -390,6 +390,7 @@ func (x *Exec) applyModifies(post, pre *State, fr *Frame, env *Env, m *SExpr, wh
 		if m.X.K == "ident" && m.X.Name == "abs" && len(m.Args) == 1 {
 			ov := x.eval(env, m.Args[0])
 			ref := ov.L[len(ov.L)-1]
+			x.checkFrameAbs(post, fr, ref, where)
 			x.bumpVersion(post, ref)
 			return
 		}
@@ -681,6 +682,39 @@ func (x *Exec) checkFrame(st *State, fr *Frame, a *Addr, where string) {
 	case AElem:
 		x.frameCheckElem(st, top, a.Key, a.Ref, a.Idx, a.Idx, where)
 	}
+}
+
+// checkFrameAbs: the abstract state of an object that existed at entry may only
+// change if the function's modifies clause lists abs(<that object>).
+func (x *Exec) checkFrameAbs(st *State, fr *Frame, ref *Term, where string) {
+	if x.dry || x.fc == nil || !x.fc.HasMod {
+		return
+	}
+	top := fr
+	for top.parent != nil {
+		top = top.parent
+	}
+	alts := []*Term{Ge(ref, Var("brk@0", IntS))}
+	env := &Env{x: x, st: top.entry, old: top.entry, vars: top.params, pkgPath: fnPkgPath(x.fn), fc: x.fc}
+	for _, m := range x.fc.Modifies {
+		if m.K == "ident" && m.Name == "everything" {
+			return
+		}
+		if m.K == "call" && m.X.K == "ident" && m.X.Name == "abs" && len(m.Args) == 1 {
+			func() {
+				defer func() {
+					if r := recover(); r != nil {
+						if _, ok := r.(evalError); !ok {
+							panic(r)
+						}
+					}
+				}()
+				ov := x.eval(env, m.Args[0])
+				alts = append(alts, Eq(ref, ov.L[len(ov.L)-1]))
+			}()
+		}
+	}
+	x.oblige(st, "frame", "modifies-abs", Or(alts...), "abstract state written is fresh or covered by modifies abs(...)", where)
 }
 
 func (x *Exec) frameCheckRange(st *State, fr *Frame, elemKey string, s Val, where string) {
